@@ -61,7 +61,9 @@ SPECIFIC = {
     "ExceptionGroup": [("grp", (ValueError(1),))],
     "BaseExceptionGroup": [("grp", (KeyError(2),))],
 }
-GENERIC_ARGS = [(), ("m",), (1, "a"), (2, "m", "file"), ([1],), (object(),), ((1, (2, b"x")), None)]
+GENERIC_ARGS = [(), ("m",), (1, "a"), (2, "m", "file"), ([1],), (object(),), ((1, (2, b"x")), None),
+                # falsy first arguments (a generator that returns 0 / "" / False, error codes of 0, ...)
+                (0,), ("",), (False, "detail"), (None, 5), ((),), (0.0, b"")]
 
 
 class Unrepr(object):
@@ -471,7 +473,7 @@ def main(tier, replay_obj=None):
     env.silence_unraisable()
     insts = make_instances()
     res = runner.Result(PID, "exploration", tier,
-                        "every BaseException subclass in builtins (%d classes) x 7 generic argument tuples + class-specific tuples (%d "
+                        "every BaseException subclass in builtins (%d classes) x 13 generic argument tuples + class-specific tuples (%d "
                         "constructible instances) x 4 sender switch settings x 4 receiver switch settings; 7 custom-class situations x 4 "
                         "receiver settings; %d hostile records x 2 receiver settings; distinct = classes + outcome classes" % (
                             len(builtin_exception_classes()), len(insts), len(hostile_records())))
